@@ -107,7 +107,7 @@ CHECKS = {
         level='model_checking',
         text='DumpStats.tla models how a dumper keeps its counters (per-resource bytes/rows, package totals, stats; incoming descriptors that '
              'already carry counters) and TLC checks StatsDescribeBytes, TotalsAreSums, StatsAgreeWithDescriptor (and that the historical '
-             'accumulate-onto-incoming variant violates them). TLC enumerates the configuration universe (MC_DumpCases: 6144 cases = format x '
+             'accumulate-onto-incoming variant violates them). TLC enumerates the configuration universe (MC_DumpCases: 8192 cases = format x '
              'path/zip x 8 counter configurations x add_filehash_to_path x pretty_descriptor x fresh/second dumper/re-dump x 4 shapes x '
              'ascii/multi-byte); each case (quick: ~600 covering every counters x incoming x filehash x target x format combination) is dumped '
              'for real twice, the harness measures every written file (size, md5, data rows, inside the zip too) and TLC evaluates the C09 '
